@@ -1,9 +1,9 @@
 package sim
 
 import (
-	"math/big"
 	sdkmath "cosmossdk.io/math"
 	"fmt"
+	"math/big"
 	"sort"
 
 	abci "github.com/cometbft/cometbft/abci/types"
